@@ -194,6 +194,35 @@ private:
     return powerset_domain_t(std::move(res));
   }
 
+  // Apply a backward operation of the base domain on each disjunct.
+  // The base domain meets its result with the forward invariant. Since
+  // the base domain cannot represent a disjunctive invariant we pass
+  // the join of the invariant's disjuncts, which is a sound
+  // over-approximation.
+  template <typename BackwardOp>
+  void backward_on_disjuncts(const powerset_domain_t &invariant,
+                             BackwardOp op) {
+    if (is_bottom()) {
+      return;
+    }
+    Domain inv = smash_disjuncts(invariant);
+    base_dom_vector vec;
+    vec.reserve(m_disjuncts.size());
+    for (unsigned i = 0, sz = m_disjuncts.size(); i < sz; ++i) {
+      op(m_disjuncts[i], inv);
+      if (m_disjuncts[i].is_bottom()) {
+        continue;
+      }
+      vec.emplace_back(std::move(m_disjuncts[i]));
+    }
+    if (vec.empty()) {
+      set_to_bottom();
+    } else {
+      std::swap(m_disjuncts, vec);
+      normalize_if_top();
+    }
+  }
+
 public:
   powerset_domain() {
     Domain disjunct; // top by default
@@ -374,19 +403,25 @@ public:
   virtual void backward_assign(const variable_t &x,
                                const linear_expression_t &e,
                                const powerset_domain_t &invariant) override {
-    CRAB_WARN(domain_name(), " does not implement backward operations");
+    backward_on_disjuncts(invariant, [&](Domain &dom, const Domain &inv) {
+      dom.backward_assign(x, e, inv);
+    });
   }
 
   virtual void backward_apply(arith_operation_t op, const variable_t &x,
                               const variable_t &y, number_t k,
                               const powerset_domain_t &invariant) override {
-    CRAB_WARN(domain_name(), " does not implement backward operations");
+    backward_on_disjuncts(invariant, [&](Domain &dom, const Domain &inv) {
+      dom.backward_apply(op, x, y, k, inv);
+    });
   }
 
   virtual void backward_apply(arith_operation_t op, const variable_t &x,
                               const variable_t &y, const variable_t &z,
                               const powerset_domain_t &invariant) override {
-    CRAB_WARN(domain_name(), " does not implement backward operations");
+    backward_on_disjuncts(invariant, [&](Domain &dom, const Domain &inv) {
+      dom.backward_apply(op, x, y, z, inv);
+    });
   }
 
   virtual void operator+=(const linear_constraint_system_t &csts) override {
@@ -530,7 +565,9 @@ public:
                       const linear_expression_t &ub_idx,
                       const linear_expression_t &val,
                       const powerset_domain_t &invariant) override {
-    CRAB_WARN(domain_name(), " does not implement backward operations");
+    backward_on_disjuncts(invariant, [&](Domain &dom, const Domain &inv) {
+      dom.backward_array_init(a, elem_size, lb_idx, ub_idx, val, inv);
+    });
   }
 
   virtual void
@@ -538,14 +575,18 @@ public:
                       const linear_expression_t &elem_size,
                       const linear_expression_t &idx,
                       const powerset_domain_t &invariant) override {
-    CRAB_WARN(domain_name(), " does not implement backward operations");
+    backward_on_disjuncts(invariant, [&](Domain &dom, const Domain &inv) {
+      dom.backward_array_load(lhs, a, elem_size, idx, inv);
+    });
   }
 
   virtual void backward_array_store(
       const variable_t &a, const linear_expression_t &elem_size,
       const linear_expression_t &idx, const linear_expression_t &v,
       bool is_strong_update, const powerset_domain_t &invariant) override {
-    CRAB_WARN(domain_name(), " does not implement backward operations");
+    backward_on_disjuncts(invariant, [&](Domain &dom, const Domain &inv) {
+      dom.backward_array_store(a, elem_size, idx, v, is_strong_update, inv);
+    });
   }
 
   virtual void backward_array_store_range(
@@ -553,13 +594,17 @@ public:
       const linear_expression_t &lb_idx, const linear_expression_t &ub_idx,
       const linear_expression_t &v,
       const powerset_domain_t &invariant) override {
-    CRAB_WARN(domain_name(), " does not implement backward operations");
+    backward_on_disjuncts(invariant, [&](Domain &dom, const Domain &inv) {
+      dom.backward_array_store_range(a, elem_size, lb_idx, ub_idx, v, inv);
+    });
   }
 
   virtual void
   backward_array_assign(const variable_t &a, const variable_t &b,
                         const powerset_domain_t &invariant) override {
-    CRAB_WARN(domain_name(), " does not implement backward operations");
+    backward_on_disjuncts(invariant, [&](Domain &dom, const Domain &inv) {
+      dom.backward_array_assign(a, b, inv);
+    });
   }
 
   // region/references
@@ -800,27 +845,35 @@ public:
   virtual void backward_assign_bool_cst(const variable_t &lhs,
                                         const linear_constraint_t &rhs,
                                         const powerset_domain_t &inv) override {
-    CRAB_WARN(domain_name(), " does not implement backward operations");
+    backward_on_disjuncts(inv, [&](Domain &dom, const Domain &base_inv) {
+      dom.backward_assign_bool_cst(lhs, rhs, base_inv);
+    });
   }
 
   virtual void
   backward_assign_bool_ref_cst(const variable_t &lhs,
                                const reference_constraint_t &rhs,
                                const powerset_domain_t &inv) override {
-    CRAB_WARN(domain_name(), " does not implement backward operations");
+    backward_on_disjuncts(inv, [&](Domain &dom, const Domain &base_inv) {
+      dom.backward_assign_bool_ref_cst(lhs, rhs, base_inv);
+    });
   }
 
   virtual void backward_assign_bool_var(const variable_t &lhs,
                                         const variable_t &rhs, bool is_not_rhs,
                                         const powerset_domain_t &inv) override {
-    CRAB_WARN(domain_name(), " does not implement backward operations");
+    backward_on_disjuncts(inv, [&](Domain &dom, const Domain &base_inv) {
+      dom.backward_assign_bool_var(lhs, rhs, is_not_rhs, base_inv);
+    });
   }
 
   virtual void
   backward_apply_binary_bool(bool_operation_t op, const variable_t &x,
                              const variable_t &y, const variable_t &z,
                              const powerset_domain_t &inv) override {
-    CRAB_WARN(domain_name(), " does not implement backward operations");
+    backward_on_disjuncts(inv, [&](Domain &dom, const Domain &base_inv) {
+      dom.backward_apply_binary_bool(op, x, y, z, base_inv);
+    });
   }
 
   // Intrinsics
@@ -839,7 +892,9 @@ public:
                                   const variable_or_constant_vector_t &inputs,
                                   const variable_vector_t &outputs,
                                   const powerset_domain_t &invariant) override {
-    CRAB_WARN(domain_name(), " does not implement backward operations");
+    backward_on_disjuncts(invariant, [&](Domain &dom, const Domain &inv) {
+      dom.backward_intrinsic(name, inputs, outputs, inv);
+    });
   }
 
   // Miscellaneous operations
